@@ -1,7 +1,125 @@
 import ComposeVerif.Ops.Common
-/-! line-protocol ops for C14 (filled in by the property's owner) -/
+import ComposeVerif.Model.Heap
+import ComposeVerif.Gen.CopyPlan
+/-! line-protocol ops for C14: `c14.copy` (model of the generated deep copy), `c14.spec` (isolation decided by the spec) -/
+open Lean
 namespace CV.Ops.C14
+open CV.Heap
 
-def handlers : List (String × Handler) := []
+/-- resolved (type, plan) of a hand-written `deepCopy()` root, by receiver type name -/
+def rootOf (name : String) : Option (Ty × Plan) :=
+  match CV.Gen.CopyPlan.roots.find? (fun r => r.1 == name) with
+  | some (_, t, p) => some (Ty.resolve CV.Gen.CopyPlan.types 64 t, Plan.resolve CV.Gen.CopyPlan.fns 64 p)
+  | none => none
+
+def fieldIndex : Std.HashMap String Nat :=
+  (CV.Gen.CopyPlan.fieldNames.zipIdx).foldl (fun m (n, i) => m.insert n i) {}
+
+def fieldName (i : Nat) : String := CV.Gen.CopyPlan.fieldNames.getD i s!"#{i}"
+
+/-- wire → GoVal.  scalar = string · nil = null · {"p":[a,V]} · {"l":[a,[V…]]} · {"m":[a,[[k,V]…]]} · {"t":[[field,V]…]} · {"o":[a,repr]} -/
+partial def ofJson (j : Json) : Except String GoVal := do
+  match j with
+  | .null => pure .nil
+  | .str s => pure (.scalar s)
+  | .obj _ =>
+    if let .ok (.arr a) := j.getObjVal? "p" then
+      let ad ← (a.getD 0 .null).getNat?
+      let v ← ofJson (a.getD 1 .null)
+      pure (.ptr ad v)
+    else if let .ok (.arr a) := j.getObjVal? "l" then
+      let ad ← (a.getD 0 .null).getNat?
+      let xs ← (a.getD 1 .null).getArr?
+      let ks ← xs.toList.mapM fun x => do pure (Key.idx, ← ofJson x)
+      pure (.slice ad ks)
+    else if let .ok (.arr a) := j.getObjVal? "m" then
+      let ad ← (a.getD 0 .null).getNat?
+      let xs ← (a.getD 1 .null).getArr?
+      let ks ← xs.toList.mapM fun x => do
+        let e ← x.getArr?
+        let k ← (e.getD 0 .null).getStr?
+        pure (Key.str k, ← ofJson (e.getD 1 .null))
+      pure (.map ad ks)
+    else if let .ok (.arr a) := j.getObjVal? "t" then
+      let ks ← a.toList.mapM fun x => do
+        let e ← x.getArr?
+        let k ← (e.getD 0 .null).getStr?
+        match fieldIndex[k]? with
+        | some i => pure (Key.fld i, ← ofJson (e.getD 1 .null))
+        | none => throw s!"field {k} is not in the regenerated field table"
+      pure (.struct ks)
+    else if let .ok (.arr a) := j.getObjVal? "o" then
+      let ad ← (a.getD 0 .null).getNat?
+      let s ← (a.getD 1 .null).getStr?
+      pure (.opaque ad s)
+    else throw "unknown value object"
+  | _ => throw "unknown value"
+
+partial def toJson : GoVal → Json
+  | .nil => .null
+  | .scalar s => .str s
+  | .opaque a s => Json.mkObj [("o", .arr #[(a : Nat), .str s])]
+  | .ptr a v => Json.mkObj [("p", .arr #[(a : Nat), toJson v])]
+  | .slice a ks => Json.mkObj [("l", .arr #[(a : Nat), .arr (ks.map fun kv => toJson kv.2).toArray])]
+  | .map a ks => Json.mkObj [("m", .arr #[(a : Nat), .arr (ks.map fun kv =>
+      Json.arr #[.str (match kv.1 with | .str s => s | _ => ""), toJson kv.2]).toArray])]
+  | .struct ks => Json.mkObj [("t", .arr (ks.map fun kv =>
+      Json.arr #[.str (match kv.1 with | .fld f => fieldName f | _ => "?"), toJson kv.2]).toArray)]
+
+/-- canonical numbering of a copy: addresses below `k` (shared with the source) are kept, the others are renumbered
+in first-visit order from `k`; a slice without elements has no identity (0), as in the Go encoder -/
+partial def renumber (k : Nat) (v : GoVal) : StateM (Std.HashMap Nat Nat × Nat) GoVal := do
+  let fresh (a : Nat) : StateM (Std.HashMap Nat Nat × Nat) Nat := do
+    if a < k then return a
+    let (m, n) ← get
+    match m[a]? with
+    | some b => return b
+    | none => set (m.insert a n, n + 1); return n
+  let kids (ks : List (Key × GoVal)) : StateM (Std.HashMap Nat Nat × Nat) (List (Key × GoVal)) :=
+    ks.mapM fun kv => do return (kv.1, ← renumber k kv.2)
+  match v with
+  | .ptr a w => do let b ← fresh a; return .ptr b (← renumber k w)
+  | .slice a ks => do
+    if ks.isEmpty then return .slice 0 []
+    let b ← fresh a; return .slice b (← kids ks)
+  | .map a ks => do let b ← fresh a; return .map b (← kids ks)
+  | .struct ks => do return .struct (← kids ks)
+  | w => return w
+
+def copyOp : Handler := fun args =>
+  match rootOf (getStr args "root") with
+  | none => Json.mkObj [("bad", "unknown root")]
+  | some (ty, plan) =>
+    match ofJson (getObj args "src") with
+    | .error e => Json.mkObj [("bad", .str e)]
+    | .ok src =>
+      -- opaque payloads live in the same heap: allocate above them as well
+      let n := (oaddrs src).foldl (fun m a => max m (a+1)) (frontier src)
+      let r := exec plan src n
+      let dst := ((renumber n r.1).run ({}, n)).1
+      let ss := (addrs src).foldl (fun (m : Std.HashSet Nat) x => m.insert x) {}
+      let shared := (addrs dst).filter fun a => a != 0 && ss.contains a
+      Json.mkObj [("dst", toJson dst),
+        ("hasTy", Json.bool (hasTy ty src)),
+        ("isolated", Json.bool shared.isEmpty),
+        ("equal", Json.bool ((toJson (erase r.1)).compress == (toJson (erase src)).compress))]
+
+/-- the spec on one concrete step: the receiver is literally what it was, and the result shares no address with it -/
+def specOp : Handler := fun args =>
+  match ofJson (getObj args "before"), ofJson (getObj args "after") with
+  | .ok b, .ok a =>
+    let unchanged := (toJson b).compress == (toJson a).compress
+    let shared : List Nat := match args.getObjVal? "result" with
+      | .ok rj => match ofJson rj with
+        | .ok r =>
+          let sb := (addrs b).foldl (fun (m : Std.HashSet Nat) x => m.insert x) {}
+          ((addrs r).filter fun x => x != 0 && sb.contains x).eraseDups
+        | .error _ => [0]
+      | .error _ => []
+    Json.mkObj [("unchanged", Json.bool unchanged), ("shared", Json.arr (shared.map fun (x : Nat) => (x : Json)).toArray)]
+  | .error e, _ => Json.mkObj [("bad", .str e)]
+  | _, .error e => Json.mkObj [("bad", .str e)]
+
+def handlers : List (String × Handler) := [("c14.copy", copyOp), ("c14.spec", specOp)]
 
 end CV.Ops.C14
